@@ -143,11 +143,11 @@ impl PartialOrd<f80> for f80 {
     }
 
     fn le(&self, rhs: &f80) -> bool {
-        !self.gt(rhs)
+        self.lt(rhs) || self.eq(rhs)
     }
 
     fn ge(&self, rhs: &f80) -> bool {
-        !self.lt(rhs)
+        rhs.lt(self) || self.eq(rhs)
     }
 
     fn partial_cmp(&self, rhs: &f80) -> Option<Ordering> {
